@@ -292,6 +292,62 @@ def r3_own_transport(ctx, fam):
                             'tables found in %s' % (n, S))
 
 
+SHARED_TABLES = {'_binary_packet': 'per-transport binary reassembly buffer',
+                 'environ': 'per-transport request environment',
+                 'callbacks': 'per-client outstanding callbacks',
+                 'pending_disconnect': 'per-namespace disconnecting sids',
+                 'rooms': 'membership of every client'}
+
+
+def r3b_whole_table_writes(ctx):
+    """tables that hold the state of *all* clients are never replaced or
+    cleared as a whole outside a constructor: such a write made while one
+    client is being served wipes the state of every other client."""
+    m = ctx.model
+    n = 0
+    server_side = [c for c in m.classes.values()
+                   if any(b.name in ('BaseServer', 'BaseManager')
+                          for b in m.mro(c))]
+    for c in server_side:
+        for f in c.methods.values():
+            for node in walk_own(f.node):
+                hit = None
+                if isinstance(node, (ast.Assign, ast.AugAssign,
+                                     ast.AnnAssign, ast.Delete)):
+                    tg = node.targets if isinstance(
+                        node, (ast.Assign, ast.Delete)) else [node.target]
+                    for t in tg:
+                        for x in (t.elts if isinstance(t, ast.Tuple)
+                                  else [t]):
+                            if isinstance(x, ast.Attribute) and \
+                                    x.attr in SHARED_TABLES and \
+                                    U(x.value) in ('self', 'self.manager',
+                                                   'self.server'):
+                                hit = (x.attr, 'replaces')
+                elif isinstance(node, ast.Call) and \
+                        isinstance(node.func, ast.Attribute) and \
+                        node.func.attr in ('clear', 'popitem') and \
+                        isinstance(node.func.value, ast.Attribute) and \
+                        node.func.value.attr in SHARED_TABLES and \
+                        U(node.func.value.value) in ('self', 'self.manager',
+                                                     'self.server'):
+                    hit = (node.func.value.attr, 'clears')
+                if hit is None:
+                    continue
+                n += 1
+                ctx.check(f.name == '__init__', '%s.%s' % (c.name, f.name),
+                          'the shared table %s is only created in a '
+                          'constructor' % hit[0],
+                          key='whole-table %s' % hit[0],
+                          reason='%s.%s %s the whole table %s (%s): the '
+                          'state of every other client is lost'
+                          % (c.name, f.name, hit[1], hit[0],
+                             SHARED_TABLES[hit[0]]), where=where(f, node))
+    if n < 5:
+        raise AnalysisError('C12.R3: only %d whole-table writes found (the '
+                            'constructors alone make 5)' % n)
+
+
 def r6_answers(ctx, fam):
     m = ctx.model
     S = SERVER[fam]
@@ -329,6 +385,7 @@ def run(ctx):
              floor=12)
     for fam in SA:
         r3_own_transport(ctx, fam)
+    r3b_whole_table_writes(ctx)
     ctx.rule('C12.R4', 'packet-type whitelist; undecodable input never '
              'reaches a handler (decode precedes dispatch, nothing in the '
              'library catches its error)', floor=30)
